@@ -1289,3 +1289,102 @@ func init() {
 		},
 	})
 }
+
+func init() {
+	register(&Rule{
+		ID: "C03-d", Template: "T7 narrowing (an unsigned count is not decremented below zero)",
+		Doc: "Row and block counts are unsigned: in pkg/objects, pkg/ingest, pkg/diff and pkg/sorter an expression x - c with x of an unsigned integer type that derives from a row / block count field or parameter (not from len()) and a constant c > 0 is computed only on paths that have established x >= c (x > 0, x != 0, x >= c, or the mirror tests). (n-1)/255+1 is the textbook block count and wraps to 16 843 010 blocks for the empty table, which then cannot be read back.",
+		Min: 0,
+		Run: func(p *Program, r *RuleResult) error {
+			fns := p.FuncsInPkg("pkg/objects", "pkg/ingest", "pkg/diff", "pkg/sorter")
+			r.Analysed = len(fns)
+			for _, fn := range fns {
+				n := 0
+				for _, b := range fn.Blocks {
+					for _, in := range b.Instrs {
+						bo, ok := in.(*ssa.BinOp)
+						if !ok || bo.Op != token.SUB {
+							continue
+						}
+						bt, ok := bo.Type().Underlying().(*types.Basic)
+						if !ok || bt.Info()&types.IsUnsigned == 0 || intBits(bo.Type()) < 32 {
+							continue
+						}
+						c, isC := constInt(bo.Y)
+						if !isC || c <= 0 {
+							continue
+						}
+						// x must be a parameter or a field load (a stored / announced count), possibly converted
+						x := stripConv(bo.X)
+						isCount := false
+						switch y := x.(type) {
+						case *ssa.Parameter:
+							isCount = true
+						case *ssa.UnOp:
+							if _, ok := y.X.(*ssa.FieldAddr); ok && y.Op == token.MUL {
+								isCount = true
+							}
+						}
+						if !isCount {
+							continue
+						}
+						key := fmt.Sprintf("%s|unsigned-minus-const#%d", funcName(fn), n)
+						n++
+						what := "an unsigned count is decremented only where it is known to be large enough"
+						// guards: edges on which x >= c is known
+						var permits []edge
+						for _, gb := range fn.Blocks {
+							if len(gb.Instrs) == 0 {
+								continue
+							}
+							ifi, ok := gb.Instrs[len(gb.Instrs)-1].(*ssa.If)
+							if !ok {
+								continue
+							}
+							cmp, ok := ifi.Cond.(*ssa.BinOp)
+							if !ok {
+								continue
+							}
+							gx, gy, op := cmp.X, cmp.Y, cmp.Op
+							if stripConv(gy) == x {
+								gx, gy = gy, gx
+								switch op {
+								case token.LSS:
+									op = token.GTR
+								case token.GTR:
+									op = token.LSS
+								case token.LEQ:
+									op = token.GEQ
+								case token.GEQ:
+									op = token.LEQ
+								}
+							}
+							if stripConv(gx) != x {
+								continue
+							}
+							k, isK := constInt(gy)
+							if !isK {
+								continue
+							}
+							switch {
+							case op == token.GTR && k >= c-1, op == token.GEQ && k >= c, op == token.NEQ && k == 0 && c == 1:
+								permits = append(permits, edge{gb, 0})
+							case op == token.LSS && k >= c, op == token.LEQ && k >= c-1, op == token.EQL && k == 0 && c == 1:
+								permits = append(permits, edge{gb, 1})
+							}
+						}
+						if path, reach := reachAfter(fn, nil, bo, mkCut(permits), nil); reach {
+							r.bad(key, p.Rel(bo.Pos()), what, fmtPath(fmt.Sprintf("%s - %d is computed without a test that excludes values below %d: for 0 the unsigned result wraps", x.Name(), c, c), path))
+						} else {
+							r.ok(key, p.Rel(bo.Pos()), what)
+						}
+					}
+				}
+			}
+			if len(r.Obligations) == 0 {
+				r.okWhy("pkg/*|unsigned-minus-const", "-", "an unsigned count is decremented only where it is known to be large enough", "no such expression in the analysed packages")
+			}
+			return nil
+		},
+	})
+}
